@@ -352,6 +352,16 @@ def compare(ex, st, op, a, b, node=None):
         if op == "IsNot":
             return (not r) if isinstance(r, bool) else z3.Not(r)
         return r
+    if op in ("Eq", "NotEq") and ((isinstance(a0, OpaqueVecApp) and isinstance(b0, Vec)) or
+                                  (isinstance(b0, OpaqueVecApp) and isinstance(a0, Vec))):
+        # an opaque function result against a plain vector: element by element
+        va = opaque_elems(ex, a0) if isinstance(a0, OpaqueVecApp) else a0
+        vb = opaque_elems(ex, b0) if isinstance(b0, OpaqueVecApp) else b0
+        k = fresh(I, "k")
+        with binding(k):
+            r = z3.And(to_z3(va.n) == to_z3(vb.n),
+                       z3.ForAll([k], z3.Implies(z3.And(0 <= k, k < to_z3(va.n)), z3eq(va.at(k), vb.at(k)))))
+        return z3.Not(r) if op == "NotEq" else r
     if isinstance(a0, OpaqueVecApp) or isinstance(b0, OpaqueVecApp):
         if op not in ("Eq", "NotEq") or not (isinstance(a0, OpaqueVecApp) and isinstance(b0, OpaqueVecApp)) or a0.name != b0.name:
             raise Unsupported("comparison involving an opaque function result")
@@ -731,6 +741,9 @@ def bound(fn, selfv):
 
 def get_attr(ex, st, o, attr, node=None):
     v = st.get(o)
+    if isinstance(v, OpaqueVecApp):
+        o = st.alloc(opaque_elems(ex, v))       # attributes/methods of an opaque function result: those of its elements
+        v = st.get(o)
     if isinstance(v, Module):
         return [(st, module_attr(ex, st, v, attr))]
     if isinstance(v, Rec):
@@ -795,6 +808,8 @@ def rec_replace(ex, st, r, args, kwargs, node):
 
 
 def get_item(ex, st, o, i, node=None):
+    if isinstance(st.get(o), OpaqueVecApp):
+        o = st.alloc(opaque_elems(ex, st.get(o)))        # elements of an opaque function result
     v = st.get(o)
     i0 = st.get(i) if isinstance(i, Ref) else i
     if isinstance(v, (ListV, tuple)):
